@@ -111,6 +111,7 @@ def set_params(m, case):
     names = param_names(case["model"])
     m.parameters = {n: param_value(case["params"][n]) for n in names}
     m.initial_values = ([float(v) for v in case["x0"]], np.float64(0.0))
+    m.pre_tau = case.get("pre_tau")           # the public fixed-step option of the tau-leap algorithm (None = adaptive)
 
 
 def is_random(case):
@@ -494,6 +495,11 @@ CORPUS = [
          n=3, seeds=[3, 4], split=1,
          params={"k0": dict(form="tuple", fn="runif", args=[0.4, 0.6], kw=False),
                  "k1": dict(form="frozen", dist="uniform", args=[0.2, 0.2])}),
+    # fixed-step tau-leap on a small population (leaps get rejected near extinction and are replaced by single reactions)
+    dict(kind="stoch", model=dict(name="sir"), params={"beta": 1.5, "gamma": 0.3, "N": 23.0}, x0=[20, 3, 0],
+         t=12.0, tform="scalar", n=4, seeds=[41, 42], split=2, exact=False, pre_tau=2.0),
+    dict(kind="stoch", model=dict(name="chain", k=3), params={"k0": 0.9, "k1": 0.4}, x0=[9, 0, 0],
+         t=[2.0, 4.0, 8.0], tform="vector", n=3, seeds=[43, 44], split=1, exact=False, pre_tau=1.0),
     # a model whose rates need exp() and whose jump size is a (random) parameter: first call on a fresh model included
     dict(kind="stoch", model=dict(name="burst"), x0=[95, 5, 0], t=4.0, tform="scalar", n=2, seeds=[31, 32], split=1, exact=True,
          params={"beta": 1.6, "gamma": dict(form="frozen", dist="uniform", args=[0.3, 0.4]), "N": 100.0}),
